@@ -139,3 +139,93 @@ contract(
     assumptions=["A2: timestamps and the seconds limit are real numbers"],
     from_property=PROP_TEXT + " (seconds: keeps exactly the files younger than the limit)",
 )
+
+
+# ---- JsonHistoryGC.run / .files ----------------------------------------------------------
+FnT = Opaque("fn")
+LjT = Opaque("lj")
+HistT = Obj("Hist", hist_size=Real, hist_units=Str)
+EnvT = Obj("Env")
+GCT = Obj("JsonHistoryGC", wait_for_shell=Bool, size=Union(NoneT, Opaque("sizearg")), force_gc=Bool,
+          gc_units_to_rmfiles=Dict(Str, FnT))
+
+LIVE = Ext(ret=Bool, pure=True, note="ghost predicate: the history file at this path belongs to a live (running) session")
+
+contract(
+    "xonsh/history/json.py::JsonHistoryGC.run", "C14",
+    params=dict(self=GCT),
+    globals={"XSH": Obj("XSH", env=EnvT, history=HistT)},
+    requires={"shell-ready": "not self.wait_for_shell"},
+    abstract=[dict(line_contains="if hist is not None:", may_raise=False,
+                   reason="remembers the last gc pass size on the history object (not contract-visible)"),
+              dict(line_contains="if xonsh_debug:", may_raise=False, reason="debug progress printing")],
+    externals={
+        "time.sleep": Ext(),
+        'Env.get("XONSH_DEBUG")': Ext(ret=Int, pure=True),
+        'Env.get("XONSH_HISTORY_SIZE")': Ext(ret=Tuple(Real, Str), pure=True, bind="cfg"),
+        "xt.to_history_tuple": Ext(ret=Tuple(Real, Str), pure=True, raises=["ValueError"], bind="cfg"),
+        "<call:fn>": Ext(ret=Tuple(Real, Seq(FileT)), bind="sel", ensures=["result[1] == a2[:len(result[1])]"],
+                         note="whichever per-unit selector the table holds: assumed only to return a prefix of the "
+                              "files it is given (proved for the four real selectors above)"),
+        "os.remove": Ext(event="os.remove", raises=["OSError"]),
+        "live": LIVE,
+    },
+    loops={"for#1": dict(invariant={
+        "attempted-in-order": 'len(log("os.remove")) == _i and forall(lambda k: log("os.remove")[k] == rm_files[k][2], 0, _i)'})},
+    raises={"ValueError": True, "KeyError": True},
+    ensures_exc={"no-effect-before-error": 'len(log("os.remove")) == 0'},
+    ensures={
+        "only-selected-in-order": 'len(log("os.remove")) <= len(sel[1]) and '
+                                  'forall(lambda k: log("os.remove")[k] == sel[1][k][2], 0, len(log("os.remove")))',
+        "refuses-unless-forced": 'implies(not self.force_gc and not (sel[0] < cfg[0]), len(log("os.remove")) == 0)',
+        "a-failed-removal-does-not-stop-the-rest": 'implies(self.force_gc or sel[0] < cfg[0], len(log("os.remove")) == len(sel[1]))',
+        "never-a-live-session": 'forall(lambda k: not live(log("os.remove")[k]), 0, len(log("os.remove")))',
+    },
+    from_property="never deletes the file of a live (locked) session ... unless forced - refuses to run when it "
+                  "would discard more than it keeps",
+    assumptions=["selector dispatch table holds the four selectors under contract (constructor not verified)"],
+)
+
+contract(
+    "xonsh/history/json.py::JsonHistoryGC.files", "C14",
+    params=dict(self=GCT, only_unlocked=Bool),
+    globals={"XSH": Obj("XSH", env=Nullable(EnvT))},
+    returns=FILES,
+    locals={"files": FILES},
+    externals={
+        'Env.get("XONSH_DEBUG")': Ext(ret=Int, pure=True),
+        "uptime.boottime": Ext(ret=Real, pure=True),
+        "_xhj_get_history_files": Ext(ret=List(Str)),
+        "time.time": Ext(ret=Real),
+        "os.path.getsize": Ext(ret=Int, raises=["OSError"], ensures=["result >= 0", "implies(result == 0, not live(a0))"],
+                               note="assumed: the file of a live session is never empty (its header is written at creation)"),
+        "os.path.getmtime": Ext(ret=Real, raises=["OSError"]),
+        "xlj.LazyJSON": Ext(ret=LjT, raises=["OSError", "ValueError"], ensures=["lj_path(result) == a0"]),
+        "lj_path": Ext(ret=Str, pure=True, note="ghost: path a LazyJSON handle was opened on"),
+        'lj.get("locked")': Ext(ret=Bool, raises=["OSError", "ValueError"],
+                                ensures=["implies(not result, not live(lj_path(recv)))"],
+                                note="meaning of `live`: a file whose lock flag is off is not a live session"),
+        'lj.__getitem__("ts")': Ext(ret=Tuple(Real, Union(NoneT, Real)), pure=True, raises=["OSError", "ValueError"],
+                                    ensures=["implies(result[0] < uptime.boottime(), not live(lj_path(recv)))"],
+                                    note="meaning of `live`: a session started before the last boot is not live"),
+        'lj.get("ts")': Ext(ret=Tuple(Real, Union(NoneT, Real)), raises=["OSError", "ValueError"]),
+        "lj.load": Ext(ret=Opaque("histdoc"), raises=["OSError", "ValueError"]),
+        "lj.close": Ext(),
+        "histdoc.__setitem__": Ext(),
+        "open": Ext(ret=Opaque("file"), event="open", raises=["OSError"]),
+        "xlj.ljdump": Ext(event="ljdump", raises=["OSError", "ValueError"]),
+        "lj.sizes": Ext(ret=Opaque("sizes"), pure=True, attr=True),
+        'sizes.__getitem__("cmds")': Ext(ret=Seq(Int), pure=True, raises=["KeyError"]),
+        "live": LIVE,
+    },
+    abstract=[dict(line_contains="if xonsh_debug:", reason="debug progress printing", may_raise=False)],
+    loops={"for#1": dict(invariant={
+        "no-live-candidate": "implies(only_unlocked, all(not live(f[2]) for f in files))"})},
+    raises={"KeyError": True},
+    ensures={
+        "oldest-first": "forall(lambda i, j: implies(i <= j, result[i][0] <= result[j][0]), 0, len(result))",
+        "never-a-live-session": "implies(only_unlocked, all(not live(f[2]) for f in result))",
+    },
+    from_property="never deletes the file of a live (locked) session; deletes strictly oldest-first "
+                  "(the selectors take a prefix of this list)",
+)
